@@ -1186,7 +1186,12 @@ class Executor(Engine):
                         rv = V(rv.ty.inner, rv.ty.val(rv.t))
                         o = (o[0], rv) + tuple(o[2:])
                     try:
-                        res = coerce(o[1], rty)
+                        if isinstance(rty, TAbs) and rty.name == 'Any':
+                            # returns='Any': the contract says nothing about the VALUE returned (exception-safety / frame contracts of
+                            # functions returning one of several classes)
+                            res = self.fresh_value('result', rty)[0]
+                        else:
+                            res = coerce(o[1], rty)
                     except OutOfSubset:
                         self.obl(f'{c.short}#return-type@{line}:p{p}', st2.pc, z3.BoolVal(False), 'type', line,
                                  meta={'why': f'returns {o[1].ty}, contract says {rty}'})
